@@ -616,9 +616,15 @@ def _elementwise(chk, repo):
         dstar = [k_.value for k_ in c.keywords if k_.arg is None] if ok else []
         named = [k_ for k_ in c.keywords if k_.arg is not None] if ok else []
         if positional:
-            ok = ok and len(c.args) == 1 and len(stars) == 1 and not named
+            ok = ok and len(stars) >= 1 and not named
             if ok:
-                parts = _flat_sum(stars[0].value, [])
+                # func(*(A + (x,) + B)) and func(*A, x, *B) pass the same positional arguments
+                parts = []
+                for a_ in c.args:
+                    if isinstance(a_, ast.Starred):
+                        _flat_sum(a_.value, parts)
+                    else:
+                        parts.append(ast.Tuple(elts=[a_], ctx=ast.Load()))
                 ok = len(parts) == 3 and unparse(parts[1]) in ("(%s,)" % x, "[%s]" % x)
                 if ok:
                     a, b = parts[0], parts[2]
